@@ -288,6 +288,10 @@ def shutdown_cases(tier, seed):
                 for again in (False, True):
                     for reconf in ((False, True) if kind.startswith("aws") else (False,)):
                         yield {"kind": kind, "way": way, "traffic": traffic, "again": again, "reconfigure": reconf}
+                    if not kind.startswith("aws") and traffic:
+                        # the stack built around a Client subclass that holds a second connection, closed by its own close()
+                        for how in ("assign", "classattr"):
+                            yield {"kind": kind, "way": way, "traffic": traffic, "again": again, "reconfigure": False, "client_class": "tunnel", "client_class_how": how}
 
 
 def check_shutdown(case):
@@ -308,10 +312,14 @@ def check_shutdown(case):
         env = Env(nservers=3 if kind.startswith("hash") else 1)
         net, clock = env.net, env.clock
         with virtual_time(clock):
-            c = env.client(kind, **({"servers": list(env.addrs)} if kind.startswith("hash") else {}), default_noreply=False)
+            extra = {}
+            if case.get("client_class"):
+                from vlib import subclasses
+                extra = {"client_class": subclasses.CLIENT_CLASSES[case["client_class"]], "client_class_how": case.get("client_class_how", "assign")}
+            c = env.client(kind, **({"servers": list(env.addrs)} if kind.startswith("hash") else {}), default_noreply=False, **extra)
     if not hasattr(c, way):
         return False, ["no-such-method"]
-    desc = "%s, %d call(s), then %s()%s%s" % (kind, case["traffic"], way, ", a reconfigure_nodes() before" if case.get("reconfigure") else "", ", then traffic and the shutdown once more" if case["again"] else "")
+    desc = "%s%s, %d call(s), then %s()%s%s" % (kind, " around the Client subclass %r (%s)" % (case["client_class"], case.get("client_class_how")) if case.get("client_class") else "", case["traffic"], way, ", a reconfigure_nodes() before" if case.get("reconfigure") else "", ", then traffic and the shutdown once more" if case["again"] else "")
     rounds = 2 if case["again"] else 1
     opened = 0
     with virtual_time(clock):
